@@ -56,6 +56,20 @@ def confirm(src, sid):
         p, f = count_tests(out)
         res["demo_fails_with_patch"] = (rc != 0)
         res["demo_with_patch"] = {"passed": p, "failed": f}
+        if rc == 0:
+            # a change that only shows with the pure-Rust backend
+            rust = ["--no-default-features", "--features", "rust"]
+            rc2, out2 = sh(["cargo", "test", "--offline"] + rust + ["--test", demo_name], cwd=wt, env=env)
+            p2, f2 = count_tests(out2)
+            res["demo_with_patch_rust_backend"] = {"passed": p2, "failed": f2}
+            if rc2 != 0:
+                sh(["git", "checkout", "--", "src"], cwd=wt)
+                rc3, out3 = sh(["cargo", "test", "--offline"] + rust + ["--test", demo_name], cwd=wt, env=env)
+                p3, f3 = count_tests(out3)
+                res["demo_without_patch_rust_backend"] = {"passed": p3, "failed": f3}
+                if rc3 == 0 and p3 > 0:
+                    res["demo_fails_with_patch"] = True
+                    res["manifests_only_under"] = "--no-default-features --features rust"
     finally:
         sh(["git", "-C", REPO, "worktree", "remove", "--force", wt])
         shutil.rmtree(wt, ignore_errors=True)
